@@ -10,6 +10,8 @@ import (
 
 // TV is a translated spec expression: a term (scalars), a location (struct-typed lvalue) or a struct value.
 type TV struct {
+	IdxOf string // for index binders: the slice term this variable indexes
+	IdxK  Term   // ... and the absolute position variable
 	T   Term
 	Go  types.Type // may be nil for purely ghost values
 	Loc *PtrVal
@@ -299,7 +301,9 @@ func (e *Env) trIdent(name string) TV {
 				if s == "" {
 					trFail("global %s has no scalar sort", name)
 				}
-				return TV{T: e.st.heap(e.vc, "global."+p.Path()+"."+name, s), Go: o.Type()}
+				t := e.st.heap(e.vc, "global."+p.Path()+"."+name, s)
+				e.vc.globalFact(t, o.Type())
+				return TV{T: t, Go: o.Type()}
 			}
 		}
 	}
@@ -490,6 +494,19 @@ func (e *Env) trQuant(x *EQuant) TV {
 	var binders []string
 	var guards []Term
 	for _, b := range x.Vars {
+		if b.Type == "$idx" {
+			// j ranges over the valid indices of a slice: bind the absolute position K, j = K - off
+			sl := e.tr(b.Of)
+			if sl.T.Sort != SSlice {
+				trFail("idx(...) needs a slice")
+			}
+			name := fmt.Sprintf("%s!q%d", mangle(b.Name), e.depth)
+			k := Term{name, SInt}
+			n.vars[b.Name] = TV{T: Sub(k, SOff(sl.T)), IdxOf: sl.T.S, IdxK: k, Go: types.Typ[types.Int]}
+			binders = append(binders, fmt.Sprintf("(%s Int)", name))
+			guards = append(guards, Le(SOff(sl.T), k), Lt(k, Add(SOff(sl.T), SLen(sl.T))))
+			continue
+		}
 		s, gt := e.vc.specSort(b.Type, e.pkg)
 		name := fmt.Sprintf("%s!q%d", mangle(b.Name), e.depth)
 		t := Term{name, s}
@@ -688,7 +705,11 @@ func (e *Env) trIdx(x *EIdx) TV {
 	if v.Go != nil {
 		switch u := v.Go.Underlying().(type) {
 		case *types.Slice:
-			p := PtrVal{Base: SArr(v.T), Path: "[]" + typeKey(u.Elem()), Idx: termPtr(Add(SOff(v.T), i.T)), T: u.Elem()}
+			pos := Add(SOff(v.T), i.T)
+			if i.IdxOf != "" && i.IdxOf == v.T.S {
+				pos = i.IdxK
+			}
+			p := PtrVal{Base: SArr(v.T), Path: "[]" + typeKey(u.Elem()), Idx: termPtr(pos), T: u.Elem()}
 			return e.locTV(p)
 		case *types.Map:
 			ks := e.vc.mapKeySort(u)
@@ -790,14 +811,8 @@ func (e *Env) trCall(x *ECall) TV {
 		if !ok {
 			trFail("heap(\"name\")")
 		}
-		h, ok := e.st.heaps[s.Val]
-		if !ok {
-			if hs, ok2 := e.vc.heapSorts[s.Val]; ok2 {
-				return TV{T: e.st.heap(e.vc, s.Val, hs)}
-			}
-			trFail("heap %q not known at this point", s.Val)
-		}
-		return TV{T: h}
+		hn, hs := e.vc.resolveHeap(s.Val, e.pkg)
+		return TV{T: e.st.heap(e.vc, hn, hs)}
 	case "bv":
 		v := e.tr(x.Args[0])
 		if v.Num == nil {
@@ -830,6 +845,10 @@ func (e *Env) trCall(x *ECall) TV {
 		}
 		if args[i].Num != nil && ps == SBV64 && args[i].T.Sort != SBV64 {
 			args[i].T = BVLit(new(big.Int).And(args[i].Num, new(big.Int).SetUint64(^uint64(0))).Uint64())
+		}
+		if ps == SIface && args[i].T.Sort == SRef && args[i].Go != nil {
+			// a pointer passed where an interface is expected: implicit conversion, as in Go
+			args[i] = TV{T: e.vc.mkIface(IntLit(int64(e.vc.w.TagOf(args[i].Go))), args[i].T), Go: pgt}
 		}
 		if args[i].T.Sort != ps {
 			trFail("%s: argument %d has sort %s, expected %s", x.Fn, i+1, args[i].T.Sort, ps)
